@@ -373,6 +373,12 @@ pub enum Stage {
     Take { k: usize },
     /// std `step_by(k)` (declared trusted-length by the library)
     StepBy { k: usize },
+    /// std `scan` whose closure never stops early (declared trusted-length by the library;
+    /// its size hint is (0, upper): lower and upper bound differ)
+    Scan,
+    /// `to_trust(len)` with the number of items really left (the safe way to declare a
+    /// length; keeps the stream double-ended)
+    ToTrust,
     /// turn the stream into an honest but *untrusted* iterator whose size hint is loose
     /// (`filter` dropping every m-th item: lower bound 0, upper bound too large)
     Loose { m: usize },
@@ -396,6 +402,8 @@ impl Stage {
             Stage::MapId => "map",
             Stage::Take { .. } => "take",
             Stage::StepBy { .. } => "step_by",
+            Stage::Scan => "scan",
+            Stage::ToTrust => "to_trust",
             Stage::Loose { .. } => "filter",
             Stage::Remat { op, .. } => op.kind(),
             Stage::VCut { .. } => "vcut",
@@ -472,6 +480,8 @@ impl Stage {
             "map" => Stage::MapId,
             "take" => Stage::Take { k: j.req("n")?.as_usize()? },
             "step_by" => Stage::StepBy { k: j.req("n")?.as_usize()? },
+            "scan" => Stage::Scan,
+            "to_trust" => Stage::ToTrust,
             "filter" => Stage::Loose { m: j.req("n")?.as_usize()? },
             "remat" => Stage::Remat {
                 backend: Backend::from_j(j.req("backend")?)?,
